@@ -107,6 +107,7 @@ REQUIRE = {
     "sibling_grids_checked": 50,
     "sibling_grids_built_positionally": 30,
     "first_grids_rechecked_after_sibling": 50,
+    "grid_pairs_updated_interleaved": 50,
 }
 K = 64.0
 EPS = float(np.finfo(np.float64).eps)
@@ -471,3 +472,20 @@ def run_shard(sh, rec):
             case.meta["object"] = "first-after-sibling"
             if _check_state(rec, case, "first-after-sibling"):
                 rec.count("first_grids_rechecked_after_sibling")
+            # interleaved updates of the two grids: position(A), position(B), velocity(A), velocity(B) - work arrays that are
+            # persistent state of one grid (lever arms, director transposes) must not be shared between instances
+            try:
+                case.grid.compute_lag_grid_position_field()
+                case2.grid.compute_lag_grid_position_field()
+                case.grid.compute_lag_grid_velocity_field()
+                case2.grid.compute_lag_grid_velocity_field()
+            except Exception as e:
+                rec.violation(f"grid-update-raises|{kind}", f"interleaved: {type(e).__name__}: {e} {case.meta}", {"meta": case.meta})
+                continue
+            for cc, tg in ((case, "interleaved-first"), (case2, "interleaved-second")):
+                cc.meta["object"] = tg
+                if cc.family == "rigid":
+                    _rigid_formula(rec, cc, tg)
+                else:
+                    _rod_checks(rec, cc, tg)
+            rec.count("grid_pairs_updated_interleaved")
